@@ -11,15 +11,15 @@ SignKey == <<120, 104, 100, 105, 119, 106, 110, 99, 104, 101, 107, 100, 52, 100,
 V2Header(n, ts, devid) ==
   <<90, 90, 1, 17>> \o LE(n, 2) \o <<32, 0>> \o Zeros(4) \o ts \o devid \o Zeros(12)
 
-(* "ok" or the first clause that fails: is p the V2 packet for (frame, devid)?  The 8 timestamp *)
-(* bytes are unconstrained.                                                                     *)
+(* "ok" or the first clause that fails: is p the V2 packet for (frame, devid)?  The 4 message-id *)
+(* bytes and the 8 timestamp bytes are unconstrained (DESIGN 6.1 F1).                            *)
 V2PacketClause(p, frame, devid, o) ==
   LET n == Len(p)  padded == Pkcs7Pad(frame) IN
   IF n # 40 + Len(padded) + 16 THEN "total length is not 40 + padded frame + 16"
   ELSE IF Take(p, 2) # <<90, 90>> THEN "start marker"
   ELSE IF Slice(p, 5, 6) # LE(n, 2) THEN "length field is not the little-endian total length"
   ELSE IF Slice(p, 21, 28) # devid THEN "device id is not 8 bytes little-endian at offset 20"
-  ELSE IF Take(p, 40) # V2Header(n, Slice(p, 13, 20), devid) THEN "fixed header bytes"
+  ELSE IF Take(p, 8) # <<90, 90, 1, 17>> \o LE(n, 2) \o <<32, 0>> \/ Slice(p, 29, 40) # Zeros(12) THEN "fixed header bytes"       \* message id (8..11) and timestamp (12..19) are free
   ELSE IF o.ecb_ct # Slice(p, 41, n - 16) THEN "harness: ciphertext oracle is not for bytes 40..n-16"
   ELSE IF o.ecb_pt # padded THEN "payload does not decrypt to the PKCS7-padded frame"
   ELSE IF o.md5_in # Take(p, n - 16) \o SignKey THEN "harness: MD5 oracle input is not packet[0:n-16] + key"
